@@ -174,15 +174,19 @@ def _run(mod: Any, pid: str, tier: str, seed: int, budget: float | None, t0: flo
         by_bucket.setdefault(b, []).append((d, c))
     outdir = ROOT / "out"
     shrink_budget = 20.0 if tier == "quick" else 90.0
-    for b in sorted(by_bucket)[:6]:
+    for b in sorted(by_bucket)[: int(os.environ.get('VERIF_MAXBUCKETS', '6'))]:
         cands = sorted(by_bucket[b], key=lambda dc: len(json.dumps(dc[1], default=str)))
         detail, case = cands[0]
 
         def still(c: Any, _b: str = b) -> bool:
             f = _check_plain(mod, c)
-            return f is not None and f.bucket == _b
+            return f is not None and f.bucket == _b and not core.sig_hit(mod, kfs, c, f)
 
         frozen = tuple(getattr(mod, "SHRINK_FROZEN", ()))
+        if os.environ.get("VERIF_NOSHRINK"):
+            for d_, _c in cands[:3]:
+                print(f"RAW bucket={b}\n{d_[:1500]}")
+            shrink_budget = 0.0
         try:
             small = core.shrink_case(case, still, shrink_budget, frozen)
             f2 = _check_plain(mod, small)
